@@ -1198,6 +1198,9 @@ class ApplyDeltaTsd(DeltaKernel):
     def removed_done(self, ctx, upto):
         return z3.ForAll([qk], z3.Implies(z3.And(qk >= 0, qk < upto), self.gg(ctx, "erased")[self.removed_key[qk]]))
 
+    def strict_done(self, ctx, upto):
+        return z3.ForAll([qk], z3.Implies(z3.And(qk >= 0, qk < upto), self.gg(ctx, "erased")[self.strict_key[qk]]))
+
     def applied_done(self, ctx, upto):
         return z3.ForAll([qk], z3.Implies(z3.And(qk >= 0, qk < upto), self.gg(ctx, "applied")[qk]))
 
@@ -1211,13 +1214,15 @@ class ApplyDeltaTsd(DeltaKernel):
 
     def inv_strict(self, I, ctx):
         i = ctx.rv(self.local(I, "i"))
-        yield "all-removed-keys-erased;strict-index-in-range", z3.And(i >= 0, i <= self.sizes["removed_strict"],
-                                                                     self.removed_done(ctx, self.sizes["removed"]), self.base_inv(ctx))
+        yield "all-removed-keys-erased;strict-keys-so-far-erased", z3.And(
+            i >= 0, i <= self.sizes["removed_strict"], self.removed_done(ctx, self.sizes["removed"]), self.strict_done(ctx, i),
+            self.base_inv(ctx))
 
     def inv_modified(self, I, ctx):
         pos = self.range_pos(I)
-        yield "children-so-far-received-their-delta", z3.And(pos >= 0, pos <= self.sizes["modified"], self.applied_done(ctx, pos),
-                                                             self.removed_done(ctx, self.sizes["removed"]), self.base_inv(ctx))
+        yield "children-so-far-received-their-delta", z3.And(
+            pos >= 0, pos <= self.sizes["modified"], self.applied_done(ctx, pos), self.removed_done(ctx, self.sizes["removed"]),
+            z3.Implies(self.n_fields == self.authored, self.strict_done(ctx, self.sizes["removed_strict"])), self.base_inv(ctx))
 
     def frame(self, I, ctx):
         return [Loc((self.g.oid, nm)) for nm in ("erased", "applied", "ops_after_touch")]
@@ -1232,6 +1237,7 @@ class ApplyDeltaTsd(DeltaKernel):
         ctx.oblige("ensures.every-removed-key-erased,every-modified-child-received-its-own-delta-at-the-cycle-time[C20 applying a "
                    "captured delta to the pre-tick state yields the post-tick state; C08 a dictionary-shaped feedback delivers the "
                    "stored delta]", z3.And(self.removed_done(ctx, self.sizes["removed"]), self.applied_done(ctx, self.sizes["modified"]),
+                                           z3.Implies(self.n_fields == self.authored, self.strict_done(ctx, self.sizes["removed_strict"])),
                                            self.gg(ctx, "mutations") == 1, self.gg(ctx, "mut_t") == self.T), kind="post-normal")
         ctx.oblige("ensures.touch-last,once[C20 an empty tick still ticks (it validates a fresh dictionary); C08 an empty first write "
                    "is delivered]", z3.And(self.gg(ctx, "touches") == 1, self.gg(ctx, "ops_after_touch") == 0), kind="post-normal")
